@@ -181,6 +181,18 @@ func (rc *rconn) pipeline(cmds [][][]byte, timeout time.Duration) (nrep int, ner
 	}
 }
 
+// reconnect: a fresh connection (after a pipelined group replies may still be under way on the old one)
+func (ln *liveNode) reconnect() {
+	ln.rc.c.Close()
+	for k := 0; k < 50; k++ {
+		if rc2, e := dial(ln.port); e == nil {
+			ln.rc = rc2
+			return
+		}
+		time.Sleep(20 * time.Millisecond)
+	}
+}
+
 // ---------- the live node ----------
 
 type liveNode struct {
